@@ -145,7 +145,7 @@ class EnvSim(Engine):
                        "the agent (scripted action sequence)")
     assumptions = (
         "the start state and the current state of the environment are read through its private _state (read-only)",
-        "max_constraints is left at its default (no constraint is dropped)",
+        "the environment under test is built with the default max_constraints (no constraint is dropped); an earlier, capped environment on the same problem is part of 25% of the scripts",
     )
 
     def profiles(self, tier):
@@ -318,8 +318,12 @@ class EnvSim(Engine):
             ops.append({"op": "apply", "a": an, "params": list(ps)})
             if ok:
                 st = new
-        return {"engine": self.name, "knobs": {"max_ancestors": rk.choice(KNOBS)}, "world": world,
-                "pick": pick, "ops": ops}
+        script = {"engine": self.name, "knobs": {"max_ancestors": rk.choice(KNOBS)}, "world": world,
+                  "pick": pick, "ops": ops}
+        re_ = stream(seed, "earlier-env")
+        if re_.random() < 0.25 and len(constraints) >= 2:
+            script["earlier_env"] = {"max_constraints": re_.randint(1, len(constraints) - 1)}
+        return script
 
     @staticmethod
     def det_world(world, hidden_val):
@@ -444,6 +448,20 @@ class EnvSim(Engine):
         except Exception as ex:
             ctx.probe("discarded-unbuildable-world:" + type(ex).__name__ + ":" + str(ex)[:70])
             return False
+        pre = script.get("earlier_env")
+        if pre:
+            # another environment built EARLIER in the same process on the same problem, with a cap on the number of
+            # constraints it considers: what that one did must not leak into the next
+            ee_mod.random = ChoiceShim(None)
+            try:
+                with warnings.catch_warnings():
+                    warnings.simplefilter("ignore")
+                    ee_mod.SimulatedExecutionEnvironment(problem, max_constraints=pre["max_constraints"])
+                ctx.probe("earlier-capped-environment")
+            except Exception as ex:
+                ctx.ev("earlier environment", type(ex).__name__)
+            finally:
+                ee_mod.random = sys.modules["random"]
         shim = ChoiceShim(target)
         ee_mod.random = shim
         ctx.op_index = 0
